@@ -10,4 +10,5 @@ TESTS = [
 ASSUMPTIONS = [
     "C14 for pkg/filesystem/virtual/nfsv4 (NFSv4.1 program, OpenedFilesPool) and the NFS handle pool: the locks are probed with the verif-tagged TryLock hooks at every quiescence of generated multi-client histories (all requests returned or parked inside leaf I/O / around VirtualOpenChild, where the program holds none of its locks); the lock of a client incarnation that has a request in flight is not probed by VerifStateCounts (the hook skips it) but by VerifClientLocksFree, which TryLocks the lock of every client incarnation after every request: the harness parks requests only inside VirtualRead/VirtualWrite and immediately before/after VirtualOpenChild, and a duplicate of an in-flight request waits on a channel after leaving the program lock, so no request that has not returned is inside a client incarnation lock at quiescence; a request that blocks on a mutex within its own step (before the next probe) is still reported by the 45 s real-time watchdog outside the synctest bubble",
     "C14/nfs41: error returns are reached through generated state-ID/file-handle/range deviations and one-shot injected failures (StatusErrIO, StatusErrAccess, StatusErrNoEnt) of VirtualOpenChild, VirtualOpenSelf, file allocation, VirtualRead, VirtualWrite and VirtualSetAttributes; the returns reached are listed as labels error_return:<operation>:<status>",
+    "C14/nfs41: the busy mark of a session slot counts as an internal lock: a request refused by SEQUENCE (NFS4ERR_TOO_MANY_OPS for a COMPOUND with more operations than the granted ca_maxoperations) must leave its slot usable; every request that the harness did not park and that is not a duplicate of an in-flight request must have returned at the next quiescence (each runs in its own goroutine inside the bubble; one that waits on a channel forever is reported with the script, one that waits on a mutex by the 45 s watchdog)",
 ]
